@@ -34,6 +34,16 @@ from mdpax.solvers import (  # noqa: E402
     ValueIteration,
 )
 
+# runtime contracts on the real BatchProcessor ride along in every worker (DESIGN 4.4): a broken
+# invariant / postcondition surfaces as ContractBroken out of an mdpax call => violation
+try:
+    if os.environ.get("VF_NO_CONTRACTS") != "1":
+        from vf import contracts as _contracts
+
+        _contracts.apply()
+except ImportError:  # icontract not installed (e.g. a bare interpreter): the dedicated check C18 reports that
+    _contracts = None
+
 SOLVERS = {
     "vi": ValueIteration,
     "pi": PolicyIteration,
